@@ -132,6 +132,10 @@ def checksJson (g : Graph) (up : Bool) (c : Compiled) : Json :=
   Json.mkObj [
     ("closed_order", Json.bool (closedOrder g c.order [])),
     ("nodup_order", Json.bool (decide c.order.Nodup)),
+    -- premise of `compile_correct_compiled` (Props/C04.lean): no variable is read before it is bound (a theorem for WF graphs: `compile_closed`)
+    ("closed_prog", Json.bool (liveIn prog).isEmpty),
+    -- premise of `compile_correct_wf` / `visitOrder_nodup` (Props/C04.lean): origins consistent, applications in topological order
+    ("wf_graph", Json.bool g.WF),
     ("fuse_safe", Json.bool fuseOk),
     ("ref_ok", Json.bool refOk), ("same_trace", Json.bool sameTrace), ("same_ret", Json.bool sameRet),
     ("trace", jArr (refTrace.map eventJson)),
